@@ -7,6 +7,7 @@ proof (Props/C11.lean over Model/Pratt.lean, Model/StrLit.lean and the regenerat
   (oracle) and with the model's decoding (tie)."""
 import os, re
 import vlib
+from props import lowertie
 
 
 # ------------------------------------------------------------------ S-expressions (trees)
@@ -453,7 +454,7 @@ def u_sweep(ctx, have_model, replay_cases=None):
 
 def run(ctx):
     ctx.extract()
-    ctx.build_lean(["GomlVerif.Props.C11"])
+    ctx.build_lean(["GomlVerif.Props.C11", "GomlVerif.Props.Lower"])
     if not ctx.build_harness():
         return ctx.finish("proof", {"evaluations": 0, "distinct_nontrivial": 0}, [], "lake build")
     have_model = os.path.exists(vlib.MODEL)
@@ -680,6 +681,14 @@ def run(ctx):
                            {"id": r[0], "binder_spelling": r[4], "fresh_spelling_in_the_twin": r[5], "cells(use-position/binder-kind)": r[6],
                             "detail": vlib.unesc(r[3])[:1500], "src": vlib.unesc(r[7])})
 
+    # ---------------------------------------------------------------- CST→AST lowering: Model/Lower.lean on the real trees
+    lower_cov = {}
+    if not ctx.replay:
+        # the canonical rendering of every operator tree of this run goes through the lowering tie as well
+        ltexts = [(f"c11:{cid}", "c11-trees", r["src"]["canon"]) for cid, r in res.items() if r["src"].get("canon")]
+        lower_cov = lowertie.run(ctx, ["corpus", "names", "gen", "mutants", "crlf"], ltexts)
+        n_eval += lower_cov.get("lower_texts", 0)
+
     n_str = sum(v for c, v in lit_classes.items() if c.startswith(('str-', 'mstr-')))
     cov0 = cov
     cov = {
@@ -698,8 +707,10 @@ def run(ctx):
         "u_escape_sweep": usw,
         "corpus_goldens": gold,
         "names(lowering commutes with renaming a local binder)": names_cov,
+        "lowering(Model/Lower.lean on the real CST)": lower_cov,
         "impl_oracle_failures": len(ctx.violations) + sum(h["count"] for h in ctx.known_hits),
-        "model_diffs": (n_eval - n_full - n_lit - usw.get("programs", 0) - n_tie_ok) + (n_str - n_lit_tie)
+        "model_diffs": (n_eval - lower_cov.get("lower_texts", 0) - n_full - n_lit - usw.get("programs", 0) - n_tie_ok) + (n_str - n_lit_tie)
+                       + (lower_cov.get("lower_texts", 0) - lower_cov.get("lower_model_equals_real", 0))
                        + (usw.get("tie_total", 0) - usw.get("tie_ok", 0)),
     }
     cov.update(cov0)
